@@ -7,6 +7,7 @@ CONSTANTS
   MaxIdx = 4
   MaxLen = 2
   Canonical = FALSE
+  MaxRedesc = 0
 SPECIFICATION Spec
 INVARIANT TypeOK
 INVARIANT C46_RowsAtStop
